@@ -243,6 +243,9 @@ def call_method(ex, base, attr, args, kw, p, node):
             raise Unsupported(f"{ex.module.name}:{node.lineno}: method {attr} of opaque {base.kind}")
         ex.trace["handlers"].add(f"method:{base.kind}.{attr}")
         return h(ex, p, [base] + args, kw, node)
+    if isinstance(base, NDArr):
+        from .array_model import nd_method
+        return nd_method(ex, p, base, attr, args, kw, node)
     if isinstance(base, Str):
         if base.concrete and all(isinstance(a, Str) and a.concrete for a in args):
             cargs = [a.c for a in args]
@@ -287,6 +290,8 @@ def call_method(ex, base, attr, args, kw, p, node):
             return [(p, Lst(items=[k for k, _ in base.pairs]))]
         if attr == "values":
             return [(p, Lst(items=[v for _, v in base.pairs]))]
+        if attr == "update" and ex.handlers.get("dict.update#ignore"):
+            return [(p, NONE)]   # attribute bookkeeping that no obligation reads (flagged by the driver)
         raise Unsupported(f"dict.{attr}")
     if isinstance(base, (Lst, Tup)):
         if attr == "index" and isinstance(base, Lst) and base.concrete:
@@ -869,7 +874,13 @@ def b_distinct(ex, p, args, kw, node):
     return [(p, Bool(distinct_list(ex.as_list(args[0], p, node))))]
 
 
+def b_slice(ex, p, args, kw, node):
+    from .array_model import h_slice
+    return h_slice(ex, p, args, kw, node)
+
+
 BUILTINS = {
+    "slice": b_slice,
     "len": b_len, "min": _minmax("min"), "max": _minmax("max"), "abs": b_abs, "int": b_int, "float": b_float,
     "bool": b_bool, "isinstance": b_isinstance, "any": _quant("any"), "all": _quant("all"), "list": b_list,
     "tuple": b_tuple, "dict": b_dict, "range": b_range, "enumerate": b_enumerate, "zip": b_zip, "sum": b_sum,
